@@ -82,16 +82,6 @@ func workloadOracle(c *kit.Case) error {
 		}
 		return md
 	}
-	// canonical outputs, sequentially, on another instance
-	canon := make([][]byte, nd)
-	seq := mk()
-	for i, d := range docs {
-		var b bytes.Buffer
-		if err := seq.Convert(d, &b); err != nil {
-			return kit.Violf("convert-error", "%v", err)
-		}
-		canon[i] = b.Bytes()
-	}
 	plans := strings.Split(c.Strs["plan"], ";")
 	if p := int(c.Ints["procs"]); p > 0 {
 		defer runtime.GOMAXPROCS(runtime.GOMAXPROCS(p))
@@ -100,6 +90,12 @@ func workloadOracle(c *kit.Case) error {
 	var wg sync.WaitGroup
 	start := make(chan struct{})
 	errs := make([]error, len(plans))
+	type result struct {
+		doc int
+		act string
+		out []byte
+	}
+	outs := make([][]result, len(plans))
 	var inFlight, maxSeen atomic.Int32
 	for g, plan := range plans {
 		wg.Add(1)
@@ -143,10 +139,7 @@ func workloadOracle(c *kit.Case) error {
 					errs[g] = kit.Violf("error", "goroutine %d action %s: %v", g, act, err)
 					return
 				}
-				if !bytes.Equal(w.buf.Bytes(), canon[i]) {
-					errs[g] = kit.Violf("concurrent-output-differs", "goroutine %d action %s on document %q:\n got        %q\n sequential %q", g, act, docs[i], w.buf.Bytes(), canon[i])
-					return
-				}
+				outs[g] = append(outs[g], result{i, act, w.buf.Bytes()})
 			}
 		}(g, plan)
 	}
@@ -156,6 +149,24 @@ func workloadOracle(c *kit.Case) error {
 	for _, e := range errs {
 		if e != nil {
 			return e
+		}
+	}
+	// canonical outputs are computed sequentially on another instance AFTER the
+	// concurrent phase, so that process-wide lazy tables are first used concurrently
+	canon := make([][]byte, nd)
+	seq := mk()
+	for i, d := range docs {
+		var b bytes.Buffer
+		if err := seq.Convert(d, &b); err != nil {
+			return kit.Violf("convert-error", "%v", err)
+		}
+		canon[i] = b.Bytes()
+	}
+	for g, rs := range outs {
+		for _, r := range rs {
+			if !bytes.Equal(r.out, canon[r.doc]) {
+				return kit.Violf("concurrent-output-differs", "goroutine %d action %s on document %q:\n got        %q\n sequential %q", g, r.act, docs[r.doc], r.out, canon[r.doc])
+			}
 		}
 	}
 	return nil
